@@ -821,6 +821,132 @@ theorem blockLoop_T {Q : Unit → Run σ → Prop} (hS : S.Finite rem) (fuel : N
     intro c r1 h1 a1 _ _
     exact hS' () _ ⟨h1.1, h1.2, h1.3, h1.4, h1.5, h1.6, h1.7⟩ (avail_le_of (a := a) (x := r1) (by omega) rfl rfl rfl rfl)
 
+theorem blockLoop_T2 {Q : Unit → Run σ → Prop} (hS : S.Finite rem) (fuel : Nat) (hf : 17 ≤ fuel) (haf : a < 8 * fuel)
+    (hlo : 1024 ≤ ws) (hhi : ws ≤ 2097152)
+    (hQ : ∀ r' op' oe' ob' p' ft', KI op' oe' ob' p' ws ft' r' → avail rem r' ≤ a → op' ≤ oe' → oe' = p' → p' ≤ ws → 1 ≤ ft' →
+      ft' ≤ 32768 → ob' ≤ oe' - op' → Q () r') :
+    ∀ (n op oe ob p ft : Nat) (r : Run σ), KI op oe ob p ws ft r → avail rem r ≤ a → op ≤ oe → oe = p → p ≤ ws →
+      1 ≤ ft → ft ≤ 32768 → ob + 2097152 < 4294967296 → Mu op oe ob p ws n →
+      wp (blockLoop S fuel n) Q EE NH r := by
+  intro n
+  induction n with
+  | zero =>
+    intro op oe ob p ft r h ha hop hoe hp hft1 hft2 hob hmu
+    have e1 := h.op; have e2 := h.oe; have e3 := h.ob
+    simp only [blockLoop, wp_bind, wp_get, wp_ite, wp_throw_fault, wp_pure]
+    refine ⟨fun hc => ?_, fun hc => hQ _ _ _ _ _ _ h ha hop hoe hp hft1 hft2 (by omega)⟩
+    have := hmu (by omega)
+    omega
+  | succ n ih =>
+    intro op oe ob p ft r h ha hop hoe hp hft1 hft2 hob hmu
+    have e1 := h.op; have e2 := h.oe; have e3 := h.ob
+    rw [blockLoop]
+    simp -zeta only [wp_bind, wp_get]
+    rw [wp_ite]
+    refine ⟨fun hlt => ?_, fun hc => by
+      simp only [wp_pure]; exact hQ _ _ _ _ _ _ h ha hop hoe hp hft1 hft2 (by omega)⟩
+    have hmu' : 2 * (ob - (oe - op)) + (if p = ws then 1 else 0) ≤ n + 1 := hmu (by omega)
+    have hneed : oe - op < ob := by omega
+    extract_lets jpW jpT jpF jpS
+    have hFS : qtmFRAME_SIZE = 32768 := rfl
+    -- after the frame bookkeeping: the window-wrap test and the next round
+    have hW : ∀ u r1 op1 ob1 p1 ft1, KI op1 p1 ob1 p1 ws ft1 r1 → avail rem r1 ≤ a → op1 ≤ p1 → p1 ≤ ws → 1 ≤ ft1 →
+        ft1 ≤ 32768 → ob1 + 2097152 < 4294967296 → (p1 - op1 < ob1 → 2 * (ob1 - (p1 - op1)) ≤ n) →
+        wp (jpW u) Q EE NH r1 := by
+      intro u r1 op1 ob1 p1 ft1 h1 a1 hop1 hp1 hf1 hf2 hob1 hpg
+      have f1 := h1.op; have f2 := h1.oe; have f3 := h1.ob; have f4 := h1.p; have f5 := h1.ws
+      simp only [jpW, wp_bind, wp_get, wp_ite, wp_pure, wp_modify]
+      refine ⟨fun hwrap => ⟨fun hi => hQ _ _ _ _ _ _ h1 a1 hop1 rfl hp1 hf1 hf2 (by omega), fun hi => ?_⟩,
+        fun hnw => ih _ _ _ _ _ _ h1 a1 hop1 rfl hp1 hf1 hf2 hob1 ?_⟩
+      · apply writeOut_T _ _ h1 a1
+        intro r2 h2 a2
+        have g1 := h2.op; have g2 := h2.oe; have g3 := h2.ob
+        refine ih 0 0 (ob1 - (p1 - op1)) 0 ft1 _ ⟨rfl, rfl, ?_, rfl, h2.5, h2.6, h2.7⟩
+          (avail_le_of a2 rfl rfl rfl rfl) (Nat.le_refl _) rfl (Nat.zero_le _) hf1 hf2 (by omega) ?_
+        · show r2.outBytes - (r1.st.oEnd - r1.st.oPtr) = ob1 - (p1 - op1)
+          omega
+        · intro hc
+          have : ¬ (0 = ws) := by omega
+          rw [if_neg this]
+          have := hpg (by omega)
+          omega
+      · intro hc
+        have : ¬ (p1 = ws) := by omega
+        rw [if_neg this]
+        have := hpg hc
+        omega
+    have hT : ∀ u r1 op1 ob1 p1 ft1, KI op1 p1 ob1 p1 ws ft1 r1 → avail rem r1 ≤ a → op1 ≤ p1 → p1 ≤ ws →
+        ob1 + 2097152 < 4294967296 → (p1 - op1 < ob1 → 2 * (ob1 - (p1 - op1)) ≤ n) →
+        wp (jpT u) Q EE NH r1 := by
+      intro u r1 op1 ob1 p1 ft1 h1 a1 hop1 hp1 hob1 hpg
+      simp only [jpT, wp_bind, wp_modify]
+      apply trailerScan_T hS fuel a r1 h1 a1 haf
+      intro r2 h2 a2
+      exact hW () _ op1 ob1 p1 32768 ⟨h2.1, h2.2, h2.3, h2.4, h2.5, rfl, h2.7⟩ (avail_le_of a2 rfl rfl rfl rfl)
+        hop1 hp1 (by omega) (by omega) hob1 hpg
+    have hF : ∀ u r1 op1 ob1 p1 ft1, KI op1 p1 ob1 p1 ws ft1 r1 → avail rem r1 ≤ a → op1 ≤ p1 → p1 ≤ ws →
+        ft1 ≤ 32768 → ob1 + 2097152 < 4294967296 → (p1 - op1 < ob1 → 2 * (ob1 - (p1 - op1)) ≤ n) →
+        wp (jpF u) Q EE NH r1 := by
+      intro u r1 op1 ob1 p1 ft1 h1 a1 hop1 hp1 hf2 hob1 hpg
+      have f6 := h1.ft
+      simp only [jpF, wp_bind, wp_get, wp_ite]
+      refine ⟨fun hz => ⟨fun _ => ?_, fun _ => hT () _ _ _ _ _ h1 a1 hop1 hp1 hob1 hpg⟩,
+        fun hnz => hW () _ _ _ _ _ h1 a1 hop1 hp1 (by omega) hf2 hob1 hpg⟩
+      apply removeBits_T _ h1 a1
+      intro r2 h2 a2 _ _ _
+      exact hT () _ _ _ _ _ h2 a2 hop1 hp1 hob1 hpg
+    have hS' : ∀ u r1, KI op oe ob p ws ft r1 → avail rem r1 ≤ a → wp (jpS u) Q EE NH r1 := by
+      intro u r1 h1 a1
+      have f1 := h1.op; have f2 := h1.oe; have f3 := h1.ob; have f4 := h1.p; have f5 := h1.ws; have f6 := h1.ft
+      have hu := u32_eq
+      simp -zeta only [jpS, wp_bind, wp_get]
+      extract_lets wpv fe1 fe2 fe3
+      have hfe1 : fe1 = p + (ob - (oe - op)) := by
+        simp only [fe1, wpv, f1, f2, f3, f4, hu]; omega
+      have hfe2 : fe2 = (if p + ft < fe1 then p + ft else fe1) := by
+        have hm : (wpv + r1.frameTodo) % u32 = p + ft := by simp only [wpv, f4, f6, hu]; omega
+        simp only [fe2, hm]
+      have hfe3 : fe3 = (if fe2 > ws then ws else fe2) := by simp only [fe3, f5]
+      have hfe : fe3 ≤ ws := by rw [hfe3]; split <;> omega
+      have hge : p ≤ fe3 := by rw [hfe3, hfe2, hfe1]; split <;> split <;> omega
+      have hgt : p < ws → p < fe3 := by intro _; rw [hfe3, hfe2, hfe1]; split <;> split <;> omega
+      clear_value fe1 fe2 fe3
+      simp only [wp_bind]
+      have hwpv : wpv = p := f4
+      rw [hwpv]
+      apply symbolLoop_T hS fuel fe3 hf hfe hlo hhi (fe3 - p) p ft r1 h1 a1 hp (by omega) (Nat.le_refl _)
+      intro r2 op2 oe2 ob2 p2 ft2 h2 a2 hp2 hcase
+      simp only [wp_modify, wp_get, wp_ite, wp_bind]
+      have g6 := h2.ft
+      have h3 : KI op2 p2 ob2 p2 ws ft2 { r2 with st := { r2.st with oEnd := r2.windowPosn } } :=
+        ⟨h2.1, h2.4, h2.3, h2.4, h2.5, h2.6, h2.7⟩
+      have a3 : avail rem { r2 with st := { r2.st with oEnd := r2.windowPosn } } ≤ a := avail_le_of a2 rfl rfl rfl rfl
+      refine ⟨fun _ => fail_T _ (by decide), fun hle => ?_⟩
+      have hft2 : ft2 ≤ 32768 := by
+        have : r2.frameTodo ≤ qtmFRAME_SIZE := by omega
+        omega
+      rcases hcase with ⟨c1, c2, c3, c4, c5⟩ | ⟨c1, c2, c3, c4, c5⟩
+      · subst c1 c2 c3
+        refine hF () _ _ _ _ _ h3 a3 (by omega) hp2 hft2 hob ?_
+        intro hc
+        by_cases hpw : p = ws
+        · rw [if_pos hpw] at hmu'; omega
+        · have := hgt (by omega)
+          rw [if_neg hpw] at hmu'; omega
+      · subst c1
+        refine hF () _ _ _ _ _ h3 a3 (Nat.zero_le _) hp2 hft2 (by omega) ?_
+        intro hc
+        have hpw : ¬ (p = ws) := by omega
+        rw [if_neg hpw] at hmu'
+        omega
+    clear_value jpS jpF jpT jpW
+    simp only [wp_ite, wp_bind, wp_modify]
+    refine ⟨fun _ => ?_, fun _ => hS' () _ h ha⟩
+    have h0 : KI op oe ob p ws ft { r with H := 65535, L := 0 } := ⟨h.1, h.2, h.3, h.4, h.5, h.6, h.7⟩
+    apply readBits_T hS 16 (by omega) h0 (avail_le_of ha rfl rfl rfl rfl)
+    intro c r1 h1 a1 _ _
+    exact hS' () _ ⟨h1.1, h1.2, h1.3, h1.4, h1.5, h1.6, h1.7⟩ (avail_le_of (a := a) (x := r1) (by omega) rfl rfl rfl rfl)
+
 /-! ### the whole call -/
 
 /-- what `qtmd_decompress` keeps between calls besides `StInv`, as long as no call has failed: the output pointers
@@ -854,6 +980,37 @@ theorem body_T {Q : Unit → Run σ → Prop} (hS : S.Finite rem) (fuel : Nat) (
     have g1 := h2.op; have g2 := h2.oe; have g3 := h2.ob; have g4 := h2.p; have g6 := h2.ft
     simp only [wp_modify]
     refine hQ _ ?_ ?_ ?_ ?_
+    · show r2.st.oPtr + r2.outBytes ≤ r2.st.oEnd
+      omega
+    · show r2.st.oEnd = r2.windowPosn
+      omega
+    · show 1 ≤ r2.frameTodo
+      omega
+    · show r2.frameTodo ≤ 32768
+      omega
+  · intro _
+    rw [e3]
+    split <;> omega
+
+theorem body_T2 {Q : Unit → Run σ → Prop} (hS : S.Finite rem) (fuel : Nat) (hf : 17 ≤ fuel) (haf : a < 8 * fuel)
+    (hlo : 1024 ≤ ws) (hhi : ws ≤ 2097152) (h : KI op oe ob p ws ft r) (ha : avail rem r ≤ a) (hop : op ≤ oe)
+    (hoe : oe = p) (hp : p ≤ ws) (hft1 : 1 ≤ ft) (hft2 : ft ≤ 32768) (hob : ob + 2097152 < 4294967296)
+    (hQ : ∀ r', avail rem r' ≤ a → r'.st.oPtr ≤ r'.st.oEnd → r'.st.oEnd = r'.windowPosn → 1 ≤ r'.frameTodo → r'.frameTodo ≤ 32768 →
+      Q () r') :
+    wp (body S fuel) Q EE NH r := by
+  unfold body
+  simp only [wp_bind, wp_get]
+  have e3 := h.ob
+  refine blockLoop_T2 hS fuel hf haf hlo hhi ?_ _ op oe ob p ft r h ha hop hoe hp hft1 hft2 hob ?_
+  · intro r1 op1 oe1 ob1 p1 ft1 h1 a1 hop1 hoe1 hp1 hf1 hf2 hob1
+    have f1 := h1.op; have f2 := h1.oe; have f3 := h1.ob; have f4 := h1.p; have f6 := h1.ft
+    simp only [wp_get, wp_ite, wp_pure, wp_bind]
+    refine ⟨fun hne => ?_, fun _ => hQ _ a1 (by omega) (by omega) (by omega) (by omega)⟩
+    apply writeOut_T (rem := rem) (a := a) _ _ h1 a1
+    intro r2 h2 a2
+    have g1 := h2.op; have g2 := h2.oe; have g3 := h2.ob; have g4 := h2.p; have g6 := h2.ft
+    simp only [wp_modify]
+    refine hQ _ (avail_le_of a2 rfl rfl rfl rfl) ?_ ?_ ?_ ?_
     · show r2.st.oPtr + r2.outBytes ≤ r2.st.oEnd
       omega
     · show r2.st.oEnd = r2.windowPosn
@@ -911,6 +1068,58 @@ theorem decompress_T (hS : S.Finite rem) (fuel : Nat) (st : St σ) (n : Nat) (hI
         · rename_i r' heq
           rw [heq] at hb
           exact fun _ => ⟨hb.1, hb.2.1, hb.2.2.1, hb.2.2.2⟩
+
+
+/-- `DecT` with one more fact about the state a call returns: it can obtain no more bits than the one it started from -/
+def DecT2 (rem : σ → Nat) (a : Nat) (res : Except Fault (DecodeOut (St σ))) : Prop :=
+  match res with
+  | .ok o => o.st.error = .ok → Sync o.st ∧ stAvail rem o.st ≤ a
+  | .error f => f ≠ .hang
+
+theorem decompress_T2 (hS : S.Finite rem) (fuel : Nat) (st : St σ) (n : Nat) (hI : StInv st)
+    (hs : st.error = .ok → Sync st) (hn : n + 2097152 < 4294967296) (hf : 17 ≤ fuel)
+    (haf : stAvail rem st < 8 * fuel) : DecT2 rem (stAvail rem st) (decompress S fuel st n) := by
+  unfold decompress
+  split
+  · exact fun he => ⟨hs he, Nat.le_refl _⟩
+  · rename_i herr
+    have herr' : st.error = .ok := by simpa using herr
+    have hsy := hs herr'
+    extract_lets i0 i1 w st1 ob r0
+    have hile : i1 ≤ st.oEnd - st.oPtr ∧ i1 ≤ n := by simp only [i1, i0]; split <;> omega
+    clear_value i1
+    have hsy1 : Sync st1 := ⟨by show st.oPtr + i1 ≤ st.oEnd; have := hsy.optr; omega, hsy.oend, hsy.ftLo, hsy.ftHi⟩
+    have hob : ob + 2097152 < 4294967296 := by simp only [ob]; omega
+    have hr0 : KI st1.oPtr st.oEnd ob st.windowPosn st.windowSize st.frameTodo r0 :=
+      ⟨rfl, rfl, rfl, rfl, rfl, rfl, hI.1.bb⟩
+    have ha0 : avail rem r0 ≤ stAvail rem st := Nat.le_refl _
+    have hav1 : stAvail rem st1 ≤ stAvail rem st := Nat.le_refl _
+    clear_value w ob
+    split
+    · simp [DecT2]
+    · split
+      · exact fun _ => ⟨hsy1, hav1⟩
+      · have hb := body_T2 hS fuel hf haf hI.1.lo hI.1.hi hr0 ha0 hsy1.optr hsy.oend hI.1.posn hsy.ftLo hsy.ftHi hob
+          (Q := fun _ r' => avail rem r' ≤ stAvail rem st ∧ r'.st.oPtr ≤ r'.st.oEnd ∧ r'.st.oEnd = r'.windowPosn ∧
+            1 ≤ r'.frameTodo ∧ r'.frameTodo ≤ 32768)
+          (fun r' h0 h1 h2 h3 h4 => ⟨h0, h1, h2, h3, h4⟩)
+        clear_value r0
+        unfold wp at hb
+        split
+        · rename_i f r' heq
+          rw [heq] at hb
+          exact hb
+        · rename_i e r' heq
+          rw [heq] at hb
+          exact fun he => absurd he hb
+        · rename_i r' heq
+          rw [heq] at hb
+          refine fun _ => ⟨⟨hb.2.1, hb.2.2.1, hb.2.2.2.1, hb.2.2.2.2⟩, ?_⟩
+          have h0 := hb.1
+          simp only [avail] at h0
+          show r'.bitsLeft % 256 + 8 * r'.inbuf.length + 8 * rem r'.st.src + (if r'.st.inputEnd then 0 else 16) ≤ _
+          have := Nat.mod_le r'.bitsLeft 256
+          omega
 
 /-! ### the premise on `out_bytes` is needed: a request of 2^32 bytes spins -/
 
